@@ -11,6 +11,8 @@ pub proof fn lemma_m3_ext(p: M3, q: M3)
 pub proof fn lemma_mul_identity(a: M3)
     ensures m3_mul(a, m3_id()) == a, m3_mul(m3_id(), a) == a
 {
+    pp_one(a.a.x); pp_one(a.a.y); pp_one(a.a.z); pp_one(a.b.x); pp_one(a.b.y); pp_one(a.b.z); pp_one(a.c.x); pp_one(a.c.y); pp_one(a.c.z);
+    pp_zero(a.a.x); pp_zero(a.a.y); pp_zero(a.a.z); pp_zero(a.b.x); pp_zero(a.b.y); pp_zero(a.b.z); pp_zero(a.c.x); pp_zero(a.c.y); pp_zero(a.c.z);
     lemma_m3_ext(m3_mul(a, m3_id()), a);
     lemma_m3_ext(m3_mul(m3_id(), a), a);
 }
